@@ -1,9 +1,9 @@
 #!/bin/sh
-# Offline setup: nothing to download.  Creates the work dir and (if missing) configures the
-# out-of-tree build of /repo used by the generated-C engines; checks rebuild on demand anyway.
+# Offline setup: nothing to download.  Creates the work dir and the out-of-tree build of /repo's working
+# tree used by the generated-C engines and the native replays (checks re-run the incremental build anyway).
 set -e
 cd "$(dirname "$0")"
 mkdir -p work evidence
 command -v cbmc >/dev/null && command -v goto-cc >/dev/null && command -v goto-instrument >/dev/null
-if [ -x lib/ensure_build.sh ]; then lib/ensure_build.sh || true; fi
+lib/ensure_build.sh uscxml-transform test-state-pass
 echo setup ok
